@@ -14,7 +14,7 @@ func vpSkipName(n string) bool { return n == "pairs" || n == "self" || n == "f" 
 
 func c05class(r *rbT, o *rbOcc) string {
 	// known defect classes on the unchanged tree (see known_findings.txt)
-	if o.ctxKind == 1 && o.inCtxOf(o.name) {
+	if o.ctxKind == 1 && o.inCtxOf(o.name) && !o.ctxSafe {
 		return "C05-initialiser"
 	}
 	if o.ctxKind == 2 && o.inCtxOf(o.name) {
